@@ -327,7 +327,8 @@ Section WalkerP.
     r_wp (ev t) b c =
     text_guards (nonempty (children "parts" t)) b (attr_d "value" t) t ++
     flat_map (fun p => r_exp (ev p) c) (children "parts" t) ++
-    (if b && negb (nonempty (children "parts" t)) then rawscan c (attr_d "value" t) else []).
+    (if b then (if negb (nonempty (children "parts" t)) then rawscan c (attr_d "value" t)
+                else if has_inert_opener (attr_d "value" t) then [Ask] else []) else []).
   Proof.
     intro t. subst t. rewrite ev_unfold. unfold build. cbn [r_wp].
     rewrite (lbl_children "parts" k ss fs ks), (self_kr k ss fs ks).
